@@ -115,10 +115,15 @@ class Unit:
                 self.items.append(('region', Region(file, path, opts.strip(), lines, i)))
                 i = j + 1
                 continue
-            m = re.match(r'^\s*//@trusted\s+(.*)$', text)
+            m = re.match(r'^\s*//@(trusted|watch)\s+(.*)$', text)
             if m:
-                comps = [c.strip() for c in m.group(1).split('::')]
-                self.items.append(('trusted', comps[0], comps[1:], origin))
+                comps = [c.strip() for c in m.group(2).split('::')]
+                props = []
+                if m.group(1) == 'watch':
+                    # //@watch C20 C15 :: FILE :: item   -- an out-of-reach function these properties depend on
+                    props = comps[0].split()
+                    comps = comps[1:]
+                self.items.append(('trusted', comps[0], comps[1:], origin, props))
                 i += 1
                 continue
             self.items.append(('line', text, origin))
@@ -129,6 +134,9 @@ class Unit:
 
     def trusted_items(self):
         return [(it[1], it[2]) for it in self.items if it[0] == 'trusted']
+
+    def trusted_props(self):
+        return {it[1] + ' :: ' + ' :: '.join(it[2]): it[4] for it in self.items if it[0] == 'trusted'}
 
     def trusted_hashes(self, repo=None):
         """sha256 of the raw text of each trusted (unverified, contract-only) item of /repo"""
@@ -377,9 +385,10 @@ class Woven:
         if unit.trusted_items():
             cur_th = unit.trusted_hashes(repo)
             gold_th = golden.get('@trusted', {})
+            tp = unit.trusted_props()
             for k, v in cur_th.items():
                 if gold_th.get(k) != v:
-                    self.trusted_changed.append(k)
+                    self.trusted_changed.append((k, tp.get(k, [])))
         for it in unit.items:
             if it[0] == 'line':
                 emit(it[1], 'contract', it[2])
